@@ -29,6 +29,9 @@ type data struct {
 	Error error
 }
 
+// maxBodyLength is the longest body the 31-bit length field of a frame can declare.
+const maxBodyLength = 0x7FFFFFFF
+
 func makeHeader(length int, index int) (header [12]byte) {
 	header[11] = byte(index & 0xff)
 	header[10] = byte(index >> 8 & 0xff)
